@@ -1,6 +1,7 @@
 import Zc.Model.Listener
 import Zc.GenFacts.Listener
 import Zc.Proofs.Listener
+import Zc.Proofs.ListenerInv
 /-! # C16 — back-to-back duplicate datagrams change nothing
 
 Delivering a datagram twice in immediate succession on one socket is observationally the same as
@@ -148,6 +149,47 @@ theorem C16_history (h : List (Block β)) (hq : ∀ b ∈ h, b.quiet H = true) :
       | error e => rfl
       | ok v => simp only [ihr]
 
+/-! ## `TimerInv`: the deferred-query timer never raises, histories never raise
+
+"A TC timer is armed only for an address that has a deferred packet."  C15 proves this for the concrete
+host (`Survive.LInv.timer`); here it is proved for the listener over **every** handler, with C15's
+association-list lemmas, and shown to be the same predicate (`C16_timerInv_is_C15s`). -/
+
+/-- the invariant holds initially and is preserved by every block (arrival, TC timer, anything else) -/
+theorem C16_timer_invariant :
+    (∀ d : σ, TimerInv (State.init d)) ∧
+    (∀ (s s' : State σ) (b : Block β) (o : List ω), TimerInv s → step H s b = .ok (s', o) → TimerInv s') :=
+  ⟨TimerInv.init, fun s s' b o hs h => step_inv H s s' b o hs h⟩
+
+/-- an armed TC timer finds its packet: `_respond_query(None, …)` → `packets[0]` does not raise `IndexError` -/
+theorem C16_timer_never_raises (s : State σ) (hs : TimerInv s) (a : Addr) (t : TcTimer) (ht : alGet a s.timers = some t) :
+    ∃ r, tcFire H s a = .ok r :=
+  let ⟨r, hr, _⟩ := tcFire_ok H s a t hs ht
+  ⟨r, hr⟩
+
+/-- from the initial state no history whatsoever raises; the only `.error` is the marker `keyError` for a
+history that fires a timer which is not armed (not a block the event loop can produce) -/
+theorem C16_run_total (d0 : σ) (bs : List (Block β)) :
+    (∃ s' o, run H (State.init d0) bs = .ok (s', o) ∧ TimerInv s') ∨ run H (State.init d0) bs = .error .keyError :=
+  run_inv H bs (State.init d0) (TimerInv.init d0)
+
+/-- **C16, whole histories, unconditional form.**  From the initial state, a history without QU queries and
+its duplicated version both run to the end and agree on the final state and on everything emitted — or both
+are the same ill-formed history (an unarmed timer fired).  The "same error" clause of `C16_history` is
+thereby discharged: there is no error to agree on. -/
+theorem C16_history_total (d0 : σ) (h : List (Block β)) (hq : ∀ b ∈ h, b.quiet H = true) :
+    (∃ r, run H (State.init d0) h = .ok r ∧ run H (State.init d0) (dupAll h) = .ok r) ∨
+    (run H (State.init d0) h = .error .keyError ∧ run H (State.init d0) (dupAll h) = .error .keyError) := by
+  have he := C16_history H h hq (State.init d0)
+  rcases C16_run_total H d0 h with ⟨s', o, hr, _⟩ | hr
+  · exact Or.inl ⟨(s', o), hr, by rw [he, hr]⟩
+  · exact Or.inr ⟨hr, by rw [he, hr]⟩
+
+/-- the invariant proved here and the `timer` half of C15's `LInv` are one predicate, read through the
+forgetful map from C15's concrete listener state to this one -/
+theorem C16_timerInv_is_C15s (s : Zc.Survive.State σ) (hL : Zc.Survive.LInv s) : TimerInv (forget s) :=
+  (timerInv_forget s).mpr hL.timer
+
 /-- **The exception is real and is exactly the guard's.**  After a QU query was processed the guard is
 open: the second copy goes through `process` again (so the query handler runs again). -/
 theorem C16_qu_reprocessed (s : State σ) (d : Bytes) (a : Addr) (p : Nat) (now : Ms) (r r' : Nat)
@@ -240,6 +282,15 @@ example : (recv demoH (recv demoH (State.init 0) [1] "a" 5353 0 0).1 [1] "a" 535
 example : (recv demoH (recv demoH (State.init 0) [1] "a" 5353 0 0).1 [1] "a" 5353 1000 0).2.2 = .response := by decide
 -- a suppressed copy does not move the window: 0 (processed), 999 (dropped), 1000 (processed again)
 example : (recv demoH (recv demoH (recv demoH (State.init 0) [1] "a" 5353 0 0).1 [1] "a" 5353 999 0).1 [1] "a" 5353 1000 0).2.2 = .response := by decide
+-- `TimerInv` is not vacuous: a state with a deferred packet and its armed timer satisfies it, and the timer fires
+example : TimerInv (σ := Nat) ⟨none, 0, none, [("a", [⟨[0, 1], 5⟩])], [("a", ⟨450, 5353⟩)], 0⟩ := by
+  intro x t ht
+  by_cases hx : "a" = x
+  · subst hx; exact ⟨_, _, rfl⟩
+  · simp [alGet, hx] at ht
+example : (tcFire demoH ⟨none, 0, none, [("a", [⟨[0, 1], 5⟩])], [("a", ⟨450, 5353⟩)], 0⟩ "a").toOption.map (·.2.1) = some ["query/1"] := by decide
+-- without the invariant the model does raise, as the code would
+example : (tcFire demoH ⟨none, 0, none, [], [("a", ⟨450, 5353⟩)], 0⟩ "a").toOption.isNone = true := by decide
 -- `pureQU`/`allRecent` hold for a recent answer and the conclusion is a real unicast datagram
 example : (⟨false, 5353, 1000, 1, 12, [⟨true, [⟨0, some (900, 4500)⟩]⟩]⟩ : QueryIn).pureQU = true := by decide
 example : (⟨false, 5353, 1000, 1, 12, [⟨true, [⟨0, some (900, 4500)⟩]⟩]⟩ : QueryIn).allRecent = true := by decide
